@@ -240,6 +240,9 @@ func objQName(o types.Object) string {
 
 // short strips the module path prefix from a qualified name.
 func short(q string) string {
+	if q == modulePath {
+		return ""
+	}
 	if strings.HasPrefix(q, modulePath+"/") {
 		return strings.TrimPrefix(q, modulePath+"/")
 	}
